@@ -20,6 +20,7 @@ type c07Case struct {
 	Uses    []c07Use `json:"uses"`
 	Data    int      `json:"data"` // 0: o="O", v="V"   1: o=7 (int), v="V"
 	Special string   `json:"special,omitempty"`
+	Gap     int      `json:"gap,omitempty"` // 0 none; 1: a blank after every use, then a printed value; 2: a line break after every use, then a directive; 3: a use ends the file after a blank line; 4: blank, comment, line break between ")" and the first @slot
 }
 
 var c07Items = []string{"T", "PA", "PO", "IFA", "SD", "SN", "SM", "T2", "IFSD", "EACHSN", "ELSESM", "ELIFSD", "EACHELSESD", "FORELSESN"}
@@ -165,7 +166,20 @@ func c07Build(cs c07Case) c07Built {
 		tag := fmt.Sprintf("%d", i)
 		switch u.Place {
 		case 0:
-			page.Nodes = append(page.Nodes, nText("{"+tag), c07UseNode(u, i, xSlots, ""), nText(tag+"}"))
+			use := c07UseNode(u, i, xSlots, "")
+			switch cs.Gap {
+			case 1:
+				page.Nodes = append(page.Nodes, nText("{"+tag), use, nText(" "), nPrint(eVar("v")), nText(tag+"}"))
+			case 2:
+				page.Nodes = append(page.Nodes, nText("{"+tag), use, nText("\n"), &Node{K: "if", E: eVar("v"), Body: []*Node{nText("I")}}, nText(" "), &Node{K: "comment", Text: " c "}, nText(tag+"}"))
+			case 3:
+				page.Nodes = append(page.Nodes, nText("{"+tag), use, nText("\n\n"))
+			case 4:
+				use.Gap = " {{-- c --}}\n"
+				page.Nodes = append(page.Nodes, nText("{"+tag), use, nText(tag+"}"))
+			default:
+				page.Nodes = append(page.Nodes, nText("{"+tag), use, nText(tag+"}"))
+			}
 		case 1:
 			page.Nodes = append(page.Nodes, &Node{K: "if", E: eVar("v"), Body: []*Node{nText("{if" + tag), c07UseNode(u, i, xSlots, ""), nText("}")}})
 		case 2:
@@ -387,6 +401,14 @@ func c07Run(c *Ctx) {
 							}
 							if !do(c07Case{X: x, Uses: []c07Use{{comp, arg, sl, pl}}, Data: int(order % 3)}) {
 								return false
+							}
+							// white space and comments around a use at top level (components of one item are enough)
+							if pl == 0 && k == 1 && arg < 2 {
+								for gap := 1; gap <= 4; gap++ {
+									if !do(c07Case{X: x, Uses: []c07Use{{comp, arg, sl, pl}}, Data: 0, Gap: gap}) {
+										return false
+									}
+								}
 							}
 						}
 					}
